@@ -4,7 +4,7 @@
 # pinned suite passes with it, the demo fails with it and passes without it. Prints one line each.
 d=$1; cd "$d" || exit 2
 export CARGO_NET_OFFLINE=true
-for n in 1 2; do
+for n in 1 2 3; do
   [ -f mutant$n.patch ] || continue
   git checkout -q -- . ; rm -f marwood/tests/mutant*_demo.rs
   if ! git apply mutant$n.patch 2>/dev/null; then echo "$(basename $d) m$n apply=FAIL"; continue; fi
